@@ -67,12 +67,20 @@ func (o Outcome) IsOK() bool { return len(o.Results) > 0 && o.Results[len(o.Resu
 type Evaluator struct {
 	MaxDepth int // call depth
 	Fuel     int // instruction budget per top-level Eval
+	Forks    int // branches whose condition did not fold (both sides explored), cumulative
 	fuel     int
 	start    *ssa.BasicBlock
 	stop     map[*ssa.BasicBlock]bool
 	hitStop  bool
 	// Resolve optionally maps a dynamic/invoke call to a callee.
 	Resolve func(c *ssa.CallCommon) *ssa.Function
+	// OnStop, when set, is told each arrival at a stop block of EvalFrom: the
+	// block the path came from and a reader of the values on that path.
+	OnStop func(from, stop *ssa.BasicBlock, get func(ssa.Value) Val)
+	// Watch/OnWatch: OnWatch is called each time evaluation is about to execute
+	// the instruction Watch (at any call depth), with a reader of the values there.
+	Watch   ssa.Instruction
+	OnWatch func(get func(ssa.Value) Val)
 }
 
 // New returns an evaluator with default limits.
@@ -145,6 +153,9 @@ func (e *Evaluator) eval(fn *ssa.Function, args []Val, env Env, depth int) []Out
 		for {
 			if stops[b] && !(b == first && st.visits[b] == 0) {
 				e.hitStop = true
+				if e.OnStop != nil {
+					e.OnStop(pred, b, func(v ssa.Value) Val { return e.get(vals, v) })
+				}
 				break
 			}
 			st.visits[b]++
@@ -155,6 +166,9 @@ func (e *Evaluator) eval(fn *ssa.Function, args []Val, env Env, depth int) []Out
 			fork := false
 			for _, ins := range b.Instrs {
 				e.fuel--
+				if e.Watch != nil && ins == e.Watch && e.OnWatch != nil {
+					e.OnWatch(func(v ssa.Value) Val { return e.get(vals, v) })
+				}
 				switch x := ins.(type) {
 				case *ssa.If:
 					c := e.get(vals, x.Cond)
@@ -166,6 +180,7 @@ func (e *Evaluator) eval(fn *ssa.Function, args []Val, env Env, depth int) []Out
 						}
 					} else {
 						// explore both; bound revisits on unknown conditions
+						e.Forks++
 						if st.visits[b] > 3 {
 							next = nil
 							fork = true
